@@ -120,6 +120,18 @@ theorem C20_ctor_none (r u i : Bool) : ctor r u i .none = ctor r u i (.many []) 
   have : featSet .none = featSet (.many []) := by funext g; simp [featSet]
   simp [ctor, this]
 
+/-- The options a generated function scope hands to its callees are exactly `call_options()` of its own
+options (hence keep recursion flag and features, drop `user_requested`, allow user code iff recursive). -/
+theorem C20_scope_callopts (o : Opts) :
+    (scopeCallopts o).recursive = o.recursive ∧ (scopeCallopts o).userRequested = false ∧
+    (scopeCallopts o).internal = o.recursive ∧ (scopeCallopts o).features = o.features := by
+  have h : scopeCallopts o = callOptions o := by simp [scopeCallopts, scopeCalloptsFromCallOptions]
+  rw [h]; exact C20_callopts o
+
+/-- Keying the caches: the cache sub-key distinguishes every two unequal option values. -/
+theorem C20_cache_key_injective (a b : Opts) (h : eq (cacheKey a) (cacheKey b) = true) : eq a b = true := by
+  simpa [cacheKey, cachingKeyIsOptions] using h
+
 /-! Non-vacuity: concrete non-trivial instances. -/
 example : evalAst (toAst (ctor true true false (.many [.LISTS, .BUILTIN_FUNCTIONS]))
             [.LISTS, .BUILTIN_FUNCTIONS]) = ctor true true false (.many [.BUILTIN_FUNCTIONS, .LISTS]) := by
